@@ -8,8 +8,9 @@ ASAN_QUICK = False      # the sanitizer build is used by the RewriteUB oracle on
 
 def components():
     # Match: the model side is the XSD reference, so a disagreement is a violation of the property itself; it goes
-    # through Match.witness() -> tag of a listed known finding (printed as KNOWN-FINDING) or VIOLATION
-    return [R.Rewrite(), R.Match(), R.MatchList()]
+    # through Match.witness() -> tag of a listed known finding (printed as KNOWN-FINDING) or VIOLATION. Match stands first so
+    # that, when a change of the rewrite breaks both, the violation is reported with a failing (pattern, string) pair
+    return [R.Match(), R.Rewrite(), R.MatchList()]
 
 
 def oracles_():
